@@ -161,6 +161,10 @@ type scall struct {
 	err      error
 	lastSent *minfo
 	lastGood *minfo
+	chk      int
+	chkOpen  bool
+	chkEp    uint64
+	chkRecv  map[uint64]bool
 	w        *world
 }
 
@@ -254,6 +258,7 @@ type world struct {
 	scalls []*scall
 	msgs   []*minfo
 	byKey  map[string]*minfo // bytes of a SessionMsg -> its latest submission
+	subs   map[string][]*minfo // bytes -> every submission
 	tagOf  map[string]int
 	ops    []string
 	descs  []string
@@ -279,7 +284,7 @@ func (d detReader) Read(p []byte) (int, error) {
 }
 
 func newWorld(c *hx.Ctx, np int) *world {
-	w := &world{c: c, rng: c.Rng, idx: map[string]int{}, byKey: map[string]*minfo{}, tagOf: map[string]int{}, failed: map[string]bool{}}
+	w := &world{c: c, rng: c.Rng, idx: map[string]int{}, byKey: map[string]*minfo{}, subs: map[string][]*minfo{}, tagOf: map[string]int{}, failed: map[string]bool{}}
 	for i := 0; i < np; i++ {
 		priv, _, err := crypto.GenerateKeyPairWithReader(crypto.KeyType_Ed25519, 0, detReader{c.Rng})
 		if err != nil {
@@ -462,6 +467,7 @@ func (w *world) sessStart(src int, seq uint64, r reqSpec, dst int, valid bool) *
 	if r.mi != nil {
 		r.mi.call, r.mi.subSeq = s.id, seq
 		w.byKey[r.mi.key] = r.mi
+		w.subs[r.mi.key] = append(w.subs[r.mi.key], r.mi)
 	}
 	go func() {
 		err := w.srv.Session(s)
@@ -495,6 +501,7 @@ func (w *world) sessReq(s *scall, seq uint64, r reqSpec) {
 		r.mi.call, r.mi.subSeq = s.id, seq
 		r.mi.subEpoch, r.mi.hadSess = w.epochOf(s)
 		w.byKey[r.mi.key] = r.mi
+		w.subs[r.mi.key] = append(w.subs[r.mi.key], r.mi)
 		s.lastSent = r.mi
 		if r.mi.kind == "good" {
 			s.lastGood = r.mi
@@ -599,6 +606,16 @@ func (w *world) anyGated() bool {
 	}
 	return false
 }
+func (w *world) gatedListenPeers() []int {
+	var o []int
+	for _, l := range w.lcalls {
+		if l.isGated() && !l.isDone() {
+			o = append(o, l.p)
+		}
+	}
+	return o
+}
+
 func (w *world) openAll() {
 	for _, l := range w.lcalls {
 		if l.isGated() {
@@ -914,10 +931,16 @@ func (w *world) oracle(st sigsrv.VerifSnapshot) {
 		s.mu.Lock()
 		out := append([]resp{}, s.out...)
 		s.mu.Unlock()
-		var curOpen bool
-		var curEp uint64
-		recvInEpoch := map[uint64]bool{}
-		for _, r := range out {
+		// every response is judged once, when it is first observed (a later byte-identical
+		// submission must not be confused with the one that was delivered)
+		if s.chkRecv == nil {
+			s.chkRecv = map[uint64]bool{}
+		}
+		curOpen, curEp, recvInEpoch := s.chkOpen, s.chkEp, s.chkRecv
+		todo := out[s.chk:]
+		s.chk = len(out)
+		defer func(s *scall) { s.chkOpen, s.chkEp, s.chkRecv = curOpen, curEp, recvInEpoch }(s)
+		for _, r := range todo {
 			switch r.kind {
 			case 0:
 				curOpen, curEp = true, r.n
@@ -940,33 +963,54 @@ func (w *world) oracle(st sigsrv.VerifSnapshot) {
 					w.fail("C22", "cross-epoch-clear", fmt.Sprintf("S%d got ClearMsg(%d) in epoch open=%v %d without a RecvMsg %d in that epoch", s.id, r.n, curOpen, curEp, r.n))
 				}
 			case 4:
-				mi := w.byKey[msgKey(r.m)]
-				if mi == nil {
+				key := msgKey(r.m)
+				subs := w.subs[key]
+				if len(subs) == 0 {
 					w.fail("C20", "forwarded-unknown-message", fmt.Sprintf("S%d received a message no client submitted", s.id))
 					continue
 				}
-				// independent of the harness bookkeeping: what was forwarded must verify,
-				// with the real keys, as signed by the identity of the submitting stream
-				if _, pid, verr := r.m.ExtractAndVerify(); verr != nil || mi.call < 0 || pid.String() != w.peers[w.scalls[mi.call].src].str {
-					w.fail("C20", "forwarded-does-not-verify", fmt.Sprintf("S%d (p%d) received %s msg#%d which does not verify under the key of the stream that submitted it (err=%v)", s.id, s.src, mi.kind, mi.tag, verr))
-					continue
+				// the relay sees bytes: judge the delivery against every submission of these
+				// bytes and report only if none of them justifies it
+				type verdict struct{ prop, key, what string }
+				judge := func(mi *minfo) []verdict {
+					var v []verdict
+					if _, pid, verr := r.m.ExtractAndVerify(); verr != nil || mi.call < 0 || pid.String() != w.peers[w.scalls[mi.call].src].str {
+						return []verdict{{"C20", "forwarded-does-not-verify", fmt.Sprintf("S%d (p%d) received %s msg#%d which does not verify under the key of the stream that submitted it (err=%v)", s.id, s.src, mi.kind, mi.tag, verr)}}
+					}
+					if mi.kind != "good" {
+						return []verdict{{"C20", "forwarded-unauthentic-" + mi.kind, fmt.Sprintf("S%d (p%d) received %s msg#%d", s.id, s.src, mi.kind, mi.tag)}}
+					}
+					from := w.scalls[mi.call]
+					if mi.signer != from.src {
+						v = append(v, verdict{"C20", "forwarded-foreign-signer", fmt.Sprintf("msg#%d signed by p%d was submitted on the stream of p%d and forwarded", mi.tag, mi.signer, from.src)})
+					}
+					if !(from.valid && from.dst == s.src && s.dst == from.src) {
+						v = append(v, verdict{"C20", "forwarded-to-wrong-peer", fmt.Sprintf("msg#%d submitted on S%d (p%d->p%d) was delivered to S%d (p%d->p%d)", mi.tag, from.id, from.src, from.dst, s.id, s.src, s.dst)})
+					}
+					if mi.subSeq != mi.subEpoch {
+						v = append(v, verdict{"C20", "forwarded-wrong-epoch", fmt.Sprintf("msg#%d submitted with session seqno %d at relay epoch %d was forwarded", mi.tag, mi.subSeq, mi.subEpoch)})
+					}
+					if !curOpen || curEp != mi.subEpoch {
+						v = append(v, verdict{"C22", "cross-epoch-delivery", fmt.Sprintf("msg#%d submitted in epoch %d delivered to S%d after announcement open=%v epoch=%d", mi.tag, mi.subEpoch, s.id, curOpen, curEp)})
+					}
+					return v
 				}
-				if mi.kind != "good" {
-					w.fail("C20", "forwarded-unauthentic-"+mi.kind, fmt.Sprintf("S%d (p%d) received %s msg#%d", s.id, s.src, mi.kind, mi.tag))
-					continue
+				var worst []verdict
+				ok := false
+				for i := len(subs) - 1; i >= 0; i-- {
+					v := judge(subs[i])
+					if len(v) == 0 {
+						ok = true
+						break
+					}
+					if worst == nil {
+						worst = v
+					}
 				}
-				from := w.scalls[mi.call]
-				if mi.signer != from.src {
-					w.fail("C20", "forwarded-foreign-signer", fmt.Sprintf("msg#%d signed by p%d was submitted on the stream of p%d and forwarded", mi.tag, mi.signer, from.src))
-				}
-				if !(from.valid && from.dst == s.src && s.dst == from.src) {
-					w.fail("C20", "forwarded-to-wrong-peer", fmt.Sprintf("msg#%d submitted on S%d (p%d->p%d) was delivered to S%d (p%d->p%d)", mi.tag, from.id, from.src, from.dst, s.id, s.src, s.dst))
-				}
-				if mi.subSeq != mi.subEpoch {
-					w.fail("C20", "forwarded-wrong-epoch", fmt.Sprintf("msg#%d submitted with session seqno %d at relay epoch %d was forwarded", mi.tag, mi.subSeq, mi.subEpoch))
-				}
-				if !curOpen || curEp != mi.subEpoch {
-					w.fail("C22", "cross-epoch-delivery", fmt.Sprintf("msg#%d submitted in epoch %d delivered to S%d after announcement open=%v epoch=%d", mi.tag, mi.subEpoch, s.id, curOpen, curEp))
+				if !ok {
+					for _, v := range worst {
+						w.fail(v.prop, v.key, v.what)
+					}
 				}
 				recvInEpoch[r.m.GetSeqno()] = true
 			}
@@ -1107,7 +1151,11 @@ func (w *world) script(nops int, pf profile) {
 			}
 		case x < pf.listen:
 			if len(w.lcalls) < maxL {
-				w.listenStart(w.rng.Intn(np))
+				p := w.rng.Intn(np)
+				if gl := w.gatedListenPeers(); len(gl) > 0 && w.rng.Intn(2) == 0 {
+					p = gl[w.rng.Intn(len(gl))]
+				}
+				w.listenStart(p)
 				w.c.Class("op-listen-start")
 			}
 		case x < pf.listen+pf.attach:
@@ -1126,6 +1174,14 @@ func (w *world) script(nops int, pf profile) {
 						} else {
 							src, dst = o.dst, o.src
 						}
+					}
+				}
+				// while a listener is gated, aim at its peer so that wants change under it
+				if gl := w.gatedListenPeers(); len(gl) > 0 && w.rng.Intn(2) == 0 {
+					dst = gl[w.rng.Intn(len(gl))]
+					src = w.rng.Intn(np - 1)
+					if src >= dst {
+						src++
 					}
 				}
 				w.sessStart(src, 0, w.rInit(dst), dst, true)
@@ -1229,7 +1285,15 @@ func (w *world) script(nops int, pf profile) {
 					w.c.Class("op-listen-cancel")
 				}
 			} else if ls := w.freeS(); len(ls) > 0 {
-				w.sessCancel(ls[w.rng.Intn(len(ls))])
+				pick := ls[w.rng.Intn(len(ls))]
+				if gl := w.gatedListenPeers(); len(gl) > 0 {
+					for _, sc := range ls {
+						if sc.valid && sc.dst == gl[0] {
+							pick = sc
+						}
+					}
+				}
+				w.sessCancel(pick)
 				w.c.Class("op-session-cancel")
 			}
 		default:
@@ -1374,7 +1438,7 @@ func run(c *hx.Ctx) {
 	if !ok {
 		panic("unknown property " + c.Prop)
 	}
-	c.Rule = "one case = one script of 6-40 scripted operations (listen start/cancel/usurp, session attach/usurp/detach/re-attach, sends with good/foreign/tampered/wrong-context/unsigned/spoofed signatures made with real keys, stateful variants derived from messages the same stream submitted before (same signature+sender+seqno with another body / hash type / sender, same signed bytes under another seqno, byte-identical retransmit, also across re-opens), current/stale/future session seqnos, solicited and unsolicited ack/clear, requests before Init, stream errors) applied to a fresh real Server by 3-4 authenticated clients, waiting for quiescence after every operation; compared: every stream's responses, every call's final error class, map sizes after every operation, final trackers and sessions; non-trivial = script with a delivered message or a listen call"
+	c.Rule = "one case = one script of 6-40 scripted operations (listen start/cancel/usurp, session attach/usurp/detach/re-attach, sends with good/foreign/tampered/wrong-context/unsigned/spoofed signatures made with real keys, stateful variants derived from messages the same stream submitted before (same signature+sender+seqno with another body / hash type / sender, same signed bytes under another seqno, byte-identical retransmit, also across re-opens), zero-valued fields right after non-zero ones on a byte-faithful stream (requests are marshalled and unmarshalled into the callee's object), gated streams (a call parked inside strm.Send for 1-4 further operations, listen and session calls), current/stale/future session seqnos, solicited and unsolicited ack/clear, requests before Init, stream errors) applied to a fresh real Server by 3-4 authenticated clients, waiting for quiescence after every operation; compared: every stream's responses, every call's final error class, map sizes after every operation, final trackers and sessions; non-trivial = script with a delivered message or a listen call"
 	fixed(c)
 	for i := 0; i < c.N; i++ {
 		np := 3
